@@ -277,6 +277,14 @@ func c14Run(s *Shard) {
 			}
 		}
 	}
+	// a criterion with one value for every known alternative: every generated level sits exactly on that value
+	aeDegenerate(s, "C14", func(c *Case) {
+		c.Kind = "wiring"
+		c.Params = M{"method": "aspectEliminationHeuristic", "function": asS(asM(asM(c.Req)["methodParameters"])["function"]), "accept": true}
+		s.Evals++
+		s.Begin(c)
+		s.Report(c14CheckWiring(c))
+	})
 	// wiring through the service, with end-to-end threshold comparison on a small instance grid
 	fnames := []string{"idealMultipliedCoefficient", "idealAdditiveCoefficient", "idealSubtractiveCoefficient", "thresholds"}
 	for _, method := range []string{"aspectEliminationHeuristic", "satisfactionHeuristic"} {
@@ -299,10 +307,10 @@ func c14Run(s *Shard) {
 							types = []string{"cost", "gain"} // a gain criterion listed after a cost criterion
 						}
 						if method == "aspectEliminationHeuristic" {
-							req = aeRequest(aeCfg{N: 3, Vals: vals, Types: types, Weights: []float64{2, 1}, Spec: spec, Ranges: idx[0]%2 == 0, Extra: true})
+							req = aeRequest(aeCfg{N: 3, Vals: vals, Types: types, Weights: []float64{2, 1}, Spec: spec, Ranges: idx[0]%2 == 0, Mixed: idx[0]%2 == 1 && idx[1] == 1, Extra: true})
 							accept = fname != "idealSubtractiveCoefficient"
 						} else {
-							req = satRequest(satCfg{N: 3, Vals: vals, Types: types, Spec: spec, Ranges: idx[0]%2 == 0, ZVal: 3})
+							req = satRequest(satCfg{N: 3, Vals: vals, Types: types, Spec: spec, Ranges: idx[0]%2 == 0, Mixed: idx[0]%2 == 1 && idx[1] == 1, ZVal: 3})
 							accept = fname != "idealAdditiveCoefficient"
 						}
 						if (idx[3]+idx[4])%2 == 1 {
